@@ -54,6 +54,21 @@ def renderings(line, salt):
                 if (salt + i) % 2 == 0 or i == 0:
                     out.append((var + "." + tail.replace(" ", "_"), "%s %s" % (t, tail)))
         return out
+    if f in ("dt_at", "dt_unix", "dt_shift", "dt_conv"):
+        dts = render.date_texts(line["a"], "en", False, salt)[:2]
+        for i, (dv, dt) in enumerate(dts):
+            sps = render.time_spellings(line["w"])
+            sp, tt = sps[(salt + i) % len(sps)]
+            base = "%s at %s" % (dt, tt)
+            if f == "dt_at":
+                out.append(("%s.%s" % (dv, sp), base))
+            elif f == "dt_unix":
+                out.append(("%s.%s" % (dv, sp), "%s %s" % (base, ["as unix", "to unixtime", "unix"][(salt + i) % 3])))
+            elif f == "dt_shift":
+                out.append(("%s.%s" % (dv, sp), "%s %s %s" % (base, line["op"], render.dur_parts_text(line["parts"], "en", salt + i))))
+            else:
+                out.append(("%s.%s" % (dv, sp), "%s %s %s" % (base, ["to", "into", "as"][(salt + i) % 3], line["z2"]["name"])))
+        return out
     if f == "unix_to_time":
         for sp, t in render.time_spellings(line["w"]):
             out.append((sp, "%s %s" % (t, ["as unix", "to unix", "unixtime"][salt % 3])))
